@@ -1560,7 +1560,22 @@ impl Server {
                         debug!("Sending response {:?}", resp);
                         if let Err(e) = self.channel.write_message(&resp) {
                             error!("Could not write message {} on the channel: {}", resp, e);
-                            queue.push_front(resp);
+                            if self.channel.back_buf.available_data() > 0 {
+                                // back-pressure: retry once the pending bytes are flushed
+                                queue.push_front(resp);
+                            } else {
+                                // Nothing is pending, so this response alone exceeds the
+                                // channel's ceiling and can never be written: retrying
+                                // would spin here for ever. Answer with a short failure
+                                // (or drop it if even that cannot fit, e.g. a huge id).
+                                let failure = WorkerResponse::error(
+                                    resp.id.clone(),
+                                    "response too large for the command channel",
+                                );
+                                if let Err(e) = self.channel.write_message(&failure) {
+                                    error!("Dropping response {}: {}", resp.id, e);
+                                }
+                            }
                         }
                     }
 
